@@ -419,7 +419,7 @@ theorem retry_can_succeed (cfg : Cfg) (hash : Bytes → Digest) (name : Name) (r
     · exact verifyLoop_honest hash s'.skip reg.manifest.all s'.st hb' hpresent
   have hdl' : dlLoop cfg hash reg ⟨[], [], []⟩ reg.manifest.all ⟨st, { tok := [], nm := 1 }, [], []⟩ = (.ok (), s') := hdl
   show (pull cfg hash name reg ⟨[], [], []⟩ st).1 = .ok ()
-  simp only [pull, mrr_pass, hdl', hv]
+  simp only [pull, mrr_pass_dflt, hdl', hv]
 
 /-- non-vacuity of `retry_can_succeed` -/
 example : HonestReg toyHash regAB ∧ BlobInv toyHash st0 ∧ CleanFor st0 regAB := by
